@@ -168,9 +168,35 @@ func (s *EtcdStore) UpdateOffsets(ctx context.Context, topic string, partition i
 	ctx, cancel := context.WithTimeout(ctx, 3*time.Second)
 	defer cancel()
 	next := lastOffset + 1
-	_, err := s.client.Put(ctx, offsetKey(topic, partition), strconv.FormatInt(next, 10))
-	s.recordEtcdResult(err)
-	return err
+	key := offsetKey(topic, partition)
+	// The end offset only moves forward. A broker that flushes a log it cached
+	// before another broker owned the partition would otherwise publish its
+	// stale end offset over the newer one.
+	for attempt := 0; attempt < 8; attempt++ {
+		resp, err := s.client.Get(ctx, key)
+		if err != nil {
+			s.recordEtcdResult(err)
+			return err
+		}
+		cmp := clientv3.Compare(clientv3.CreateRevision(key), "=", 0)
+		if len(resp.Kvs) > 0 {
+			if cur, perr := strconv.ParseInt(strings.TrimSpace(string(resp.Kvs[0].Value)), 10, 64); perr == nil && cur >= next {
+				s.recordEtcdResult(nil)
+				return nil
+			}
+			cmp = clientv3.Compare(clientv3.ModRevision(key), "=", resp.Kvs[0].ModRevision)
+		}
+		txn, err := s.client.Txn(ctx).If(cmp).Then(clientv3.OpPut(key, strconv.FormatInt(next, 10))).Commit()
+		if err != nil {
+			s.recordEtcdResult(err)
+			return err
+		}
+		if txn.Succeeded {
+			s.recordEtcdResult(nil)
+			return nil
+		}
+	}
+	return fmt.Errorf("update offsets for %s: too many concurrent writers", key)
 }
 
 func offsetKey(topic string, partition int32) string {
